@@ -7,7 +7,7 @@ from ..core import short_exc
 
 PROP = "C02"
 LEVEL = "exploration"
-N = {"quick": 20000, "thorough": 500000}
+N = {"quick": 60000, "thorough": 1200000}
 RULE = ("seeded instance x filter x op list; after every accepted dispatch start = max(job ready, machine free) "
         "by the reference model and all tracking values equal those derived from the schedule; at every reset "
         "and at the end the recorded (operation, machine) history is re-dispatched on a fresh dispatcher, on the "
